@@ -294,6 +294,11 @@ def corpus_C03(tier):
             corpus.with_restarts(rng, inst)
             inst["maxfun"] = int(rng.integers(30, 130))
             inst["rhoend"] = 1e-2
+        if i % 8 == 5:
+            inst = corpus.proj_inst(rng, i + 1)     # convex-constrained: the stored point is re-projected by the read accessor
+            if i % 16 == 5:
+                inst["proj"] = ["half", "ball", "half"]
+                inst["x0feas"] = "far"
         if i % 10 == 0:
             inst["prob"] = "zero"      # exit at x0
         if i % 13 == 0 and not inst.get("scaling"):
